@@ -4,63 +4,56 @@
  'include': ['/verif/units/C19/cxxshim'],
  'clauses': 'path_iterate(p): NULL for a NULL or empty path; a path that starts with a slash: that "slash node" is left by skipping separators and '
             'single-dot components; otherwise the current component is passed (its bytes hold no slash / NUL, it ends at one) and then separators and '
-            'single-dot components are skipped; the result is the start of the next real component or the terminator; reads only bytes of the string',
+            'single-dot components are skipped; the result lies strictly behind p, at the start of the next real component or at the terminator; p may '
+            'point anywhere into its string (symbolic start offset); reads only bytes of the string.  The asserted clause is C19_IT_POST of '
+            'contracts/c19_path_contracts.h, the contract path_remove_prefix uses.',
  'kf': ['C19_path_single_dot_overread'],
- 'inject': [{'file': 'igris/util/pathops.h', 'func': 'path_skip_slashes_and_single_dots', 'at': 'func-begin', 'ghost': 'g_p1 = path;'},
-            {'file': 'igris/util/pathops.h', 'func': 'path_skip_slashes_and_single_dots', 'loop': 0, 'expect': 'while (*path ==',
+ 'inject': [{'file': 'igris/util/pathops.h', 'func': 'path_skip_slashes_and_single_dots', 'loop': 0, 'expect': 'while (*path ==',
              'assigns': 'path',
-             'invariants': ['__CPROVER_same_object(path, g_p0) && __CPROVER_POINTER_OFFSET(g_p0) == 0 && g_p1 == g_p0',
-                            '0 <= __CPROVER_POINTER_OFFSET(path) && (size_t)__CPROVER_POINTER_OFFSET(path) <= g_L',
-                            'g_k < (size_t)__CPROVER_POINTER_OFFSET(path) ==> C19_PSKIP(g_p0, g_k)'],
-             'decreases': 'g_L - (size_t)__CPROVER_POINTER_OFFSET(path)'},
+             'invariants': ['__CPROVER_same_object(path, g_p0)',
+                            'C19_POFF(g_p0) <= C19_POFF(path) && C19_POFF(path) <= g_T',
+                            '(C19_POFF(g_p0) <= g_it_k && g_it_k < C19_POFF(path)) ==> C19_PSKIP(g_base, g_it_k)'],
+             'decreases': 'g_T - C19_POFF(path)'},
+            {'file': 'igris/util/pathops.h', 'func': 'path_iterate', 'at': 'func-begin', 'ghost': 'g_it_mid = g_off0;'},
             {'file': 'igris/util/pathops.h', 'func': 'path_iterate', 'at': 'before', 'anchor': 'while (*path == \'/\' || path_is_single_dot(path))',
-             'ghost': 'g_mid = C19_OFF(path, g_p0);'},
+             'ghost': 'g_it_mid = (size_t)(path - g_base);'},
             {'file': 'igris/util/pathops.h', 'func': 'path_iterate', 'loop': 0, 'expect': 'while (*path && *path !=',
              'assigns': 'path',
-             'invariants': ['__CPROVER_same_object(path, g_p0) && __CPROVER_POINTER_OFFSET(g_p0) == 0',
-                            '0 <= __CPROVER_POINTER_OFFSET(path) && (size_t)__CPROVER_POINTER_OFFSET(path) <= g_L',
-                            'g_k < (size_t)__CPROVER_POINTER_OFFSET(path) ==> !C19_PEND(g_p0[g_k])'],
-             'decreases': 'g_L - (size_t)__CPROVER_POINTER_OFFSET(path)'},
+             'invariants': ['__CPROVER_same_object(path, g_p0)',
+                            'C19_POFF(g_p0) <= C19_POFF(path) && C19_POFF(path) <= g_T',
+                            '(C19_POFF(g_p0) <= g_it_k && g_it_k < C19_POFF(path)) ==> !C19_PEND(g_base[g_it_k])'],
+             'decreases': 'g_T - C19_POFF(path)'},
             {'file': 'igris/util/pathops.h', 'func': 'path_iterate', 'loop': 1, 'expect': 'while (*path ==',
              'assigns': 'path',
-             'invariants': ['__CPROVER_same_object(path, g_p0) && __CPROVER_POINTER_OFFSET(g_p0) == 0',
-                            'g_mid <= (size_t)__CPROVER_POINTER_OFFSET(path) && (size_t)__CPROVER_POINTER_OFFSET(path) <= g_L',
-                            '(g_mid <= g_k && g_k < (size_t)__CPROVER_POINTER_OFFSET(path)) ==> C19_PSKIP(g_p0, g_k)'],
-             'decreases': 'g_L - (size_t)__CPROVER_POINTER_OFFSET(path)'}],
- 'ghost_calls': ['C19_OFF'],
+             'invariants': ['__CPROVER_same_object(path, g_p0)',
+                            'g_it_mid <= C19_POFF(path) && C19_POFF(path) <= g_T',
+                            '(g_it_mid <= g_it_k && g_it_k < C19_POFF(path)) ==> C19_PSKIP(g_base, g_it_k)'],
+             'decreases': 'g_T - C19_POFF(path)'}],
  'witness': {'unwind': 9},
 } @*/
-#include "c19_path.h"
-size_t g_L, g_k, g_mid;
-const char *g_p0, *g_p1;
+#include "c19_path_contracts.h"
+size_t g_T, g_off0;          /* absolute offset of the terminator / of p */
+const char *g_p0, *g_base;   /* p / start of its object */
 #include <igris/util/pathops.h>
 
 void harness(void)
 {
+    WIT(size_t, off);
     WIT(size_t, L);
     WIT(size_t, k);
-    WIT_ARR(char, content, 8);
-    C19_STRING(p, L, content, (KF_C19_path_single_dot_overread == 1));
-    g_L = L;
-    g_k = k;
+    WIT_ARR(char, content, 9);
+    g_path_spare = (KF_C19_path_single_dot_overread == 1);
+    C19_PSTRING(p, off, L, content, (KF_C19_path_single_dot_overread == 1));
+    g_T = off + L;
+    g_off0 = off;
     g_p0 = p;
+    g_base = p_base;
+    g_it_k = k;
 
     __CPROVER_assert(path_iterate(NULL) == NULL, "path_iterate: NULL path gives NULL");
 
     const char *r = path_iterate(p);
 
-    if (p[0] == 0) {
-        __CPROVER_assert(r == NULL, "path_iterate: empty path gives NULL");
-    } else {
-        __CPROVER_assert(r != NULL && __CPROVER_same_object(r, p) && r >= p && (size_t)(r - p) <= L, "path_iterate: result inside the string");
-        size_t ro = (size_t)(r - p);
-        /* end of the node that is left: the leading slash is a node of length 0 */
-        size_t mid = p[0] == '/' ? 0 : g_mid;
-        __CPROVER_assert(mid <= ro, "path_iterate: the node that is left ends before the result");
-        __CPROVER_assert(!(k < mid) || !C19_PEND(p[k]), "path_iterate: the node that is left holds no slash and no NUL");
-        __CPROVER_assert(C19_PEND(p[mid]), "path_iterate: the node that is left ends at a slash or at the terminator");
-        __CPROVER_assert(!(mid <= k && k < ro) || C19_PSKIP(p, k), "path_iterate: everything between the node and the result is a slash or a single-dot component");
-        __CPROVER_assert(p[ro] != '/' && !(p[ro] == '.' && C19_PEND(p[ro + 1])), "path_iterate: the result is the start of a real component or the terminator");
-    }
+    __CPROVER_assert(C19_IT_POST(r, p), "path_iterate: contract clause C19_IT_POST (leave the current node, skip separators and single dots)");
     CANARY("path_iterate end reachable");
 }
